@@ -1,8 +1,10 @@
 package validate
 
 import (
+	"github.com/anz-bank/sysl/pkg/utils"
 	"os"
 	"regexp"
+	"sort"
 	"strings"
 
 	"github.com/anz-bank/sysl/pkg/msg"
@@ -83,7 +85,9 @@ func (v *Validator) Validate(start, depPath, basepath string) {
 }
 
 func (v *Validator) LogMessages() {
-	for viewName, messages := range v.GetMessages() {
+	allMessages := v.GetMessages()
+	for _, viewName := range utils.OrderedKeys(allMessages) {
+		messages := allMessages[viewName]
 		msg.NewMsg(msg.TitleViewName, []string{viewName}).LogMsg()
 		for _, message := range messages {
 			message.LogMsg()
@@ -200,7 +204,9 @@ func (v *Validator) compareTuple(
 	specAttrs := specTuple.GetAttrDefs()
 	implAttrs := implTuple.GetAttrDefs()
 
-	for ikey, ival := range implTuple.GetAttrDefs() {
+	// messages are reported in the order they are found: walk in name order
+	for _, ikey := range utils.OrderedKeys(implAttrs) {
+		ival := implAttrs[ikey]
 		if ival.GetTuple() == nil {
 			continue
 		}
@@ -211,7 +217,8 @@ func (v *Validator) compareTuple(
 		}
 	}
 
-	for gk, gv := range specAttrs {
+	for _, gk := range utils.OrderedKeys(specAttrs) {
+		gv := specAttrs[gk]
 		if specOneOf := grammarSpec[gk].GetOneOf(); specOneOf != nil {
 			v.compareOneOf(specOneOf, implTuple, implAttrNames, viewName, specTupleName)
 		} else if _, exists := implAttrs[gk]; !exists {
@@ -224,7 +231,7 @@ func (v *Validator) compareTuple(
 		}
 	}
 
-	for attrName := range implAttrNames {
+	for _, attrName := range utils.OrderedKeys(implAttrNames) {
 		v.messages[viewName] = append(v.messages[viewName],
 			*msg.NewMsg(msg.ErrExcessAttr, []string{attrName, viewName, specTupleName}))
 		delete(implAttrNames, attrName)
@@ -266,6 +273,7 @@ func (v *Validator) compareOneOf(
 		for k := range implAttrs {
 			implAttrNames = append(implAttrNames, k)
 		}
+		sort.Strings(implAttrNames)
 		v.messages[viewName] = append(v.messages[viewName],
 			*msg.NewMsg(msg.ErrInvalidOption, []string{viewName, strings.Join(implAttrNames, ","), specTupleName}))
 	}
